@@ -86,6 +86,9 @@ fn(H1 + "._handle_events", params={}, task="reader", model_opts={"h11_server_hea
        # event with the same bytes; the end of the message as exactly one EndBody
        ("C01.h11.data", "implies(isinstance(event, h11.Data), trace_any('calls', 'c', " + STREAM_HANDLE + " and isinstance(c[2], Body) and c[2].stream_id == 1 and c[2].data == event.data))", "C01"),
        ("C01.h11.end", "implies(isinstance(event, h11.EndOfMessage), trace_any('calls', 'c', " + STREAM_HANDLE + " and isinstance(c[2], EndBody) and c[2].stream_id == 1))", "C01"),
+       # C07: the arrival of a request head reports the connection busy (the server stops the
+       # keep-alive timer on that report)
+       ("C07.h11.busy", "implies(isinstance(event, h11.Request), trace_any('sent', 'x', isinstance(x, Updated) and x.idle == False))", "C07"),
        ("C01.h11.request-once", "implies(isinstance(event, h11.Request), count_calls('H11Protocol._create_stream') == 1 and same(call_args('H11Protocol._create_stream')[1], event))", "C01,C06"),
    ]}},
    props=("C04", "C06", "C07", "C01"))
@@ -145,8 +148,8 @@ fn(H1 + "._create_stream", params={"request": REQ}, task="reader",
    ensures=[
        # C13.select: the Request goes to a WebSocket stream exactly for a WebSocket opening, and to
        # an HTTP stream otherwise
-       ("C13.h11.ws-iff-opening", "iff(trace_any('calls', 'c', c[0] == 'WSStream.handle'), " + WS_OPENING + ")", "C13"),
-       ("C13.h11.http-otherwise", "iff(trace_any('calls', 'c', c[0] == 'HTTPStream.handle'), not " + WS_OPENING + ")", "C13"),
+       ("C13.h11.ws-iff-opening", "iff(trace_any('calls', 'c', c[0] == 'WSStream.handle'), " + WS_OPENING + ")", "C13,C11"),
+       ("C13.h11.http-otherwise", "iff(trace_any('calls', 'c', c[0] == 'HTTPStream.handle'), not " + WS_OPENING + ")", "C13,C11"),
        # C01.h11.request: one stream object per request, handed one Request event that reports the
        # method (upper-cased), target, version and -- unless raw headers are configured -- the header
        # list as the parser produced them, on stream 1, with the connection's state
